@@ -412,6 +412,7 @@ func init() { vstat.Register(uC02, runC02) }
 
 func TestVerifC02Wiring(t *testing.T) {
 	defer uC02.Flush()
+	wedgeUnit = uC02
 	rapid.Check(t, func(rt *rapid.T) {
 		sc, labels := genMixedScenario(rt, true)
 		// classification needs one execution: run once, classify, then the repetitions
@@ -504,6 +505,7 @@ func matchingInteresting(sc *scenario) (bool, []string) {
 
 func TestVerifC03Matching(t *testing.T) {
 	defer uC03.Flush()
+	wedgeUnit = uC03
 	rapid.Check(t, func(rt *rapid.T) {
 		ties := rapid.IntRange(0, 2).Draw(rt, "ties") == 0
 		sc, labels := genMixedScenario(rt, ties)
